@@ -66,8 +66,11 @@ SIG_FORK = "C17:forking:close-leaves-children-serving"
 
 
 # ---------------------------------------------------------------------------------------------- cases
-def case_dict(kind, transport, auth, nb, toks):
-    return dict(kind="history", server=kind, transport=transport, auth=bool(auth), nb=nb, ops=list(toks))
+def case_dict(kind, transport, auth, nb, toks, opts=()):
+    d = dict(kind="history", server=kind, transport=transport, auth=bool(auth), nb=nb, ops=list(toks))
+    if opts:
+        d["opts"] = sorted(opts)      # harness-side configuration the model does not see (servers.Session)
+    return d
 
 
 def corpus():
@@ -104,6 +107,19 @@ def corpus():
             for bye in ("a1", "g1"):
                 out.append(case_dict("pool", tr, False, 2, ("c1:g m1 c2:g p2 %s c3:g:1 p3 h1 p3 p2 g3 X" % bye).split()))
             out.append(case_dict("pool", tr, False, 2, "c1:g m1 a1 h1 c2:g:1 p2 X".split()))
+        # threaded: the thread of a departed client sits in its service's blocking on_disconnect - the connection closed, the
+        # closed socket object still in server.clients - when the server is closed with others connected; then the hook returns
+        byes = ("a1", "g1", "z1") if tr == "tcp" else ("a1", "g1")
+        for bye in byes:
+            out.append(case_dict("threaded", tr, False, 2, ("c1:g m1 c2:g p2 c3:g %s X X h1 p2 c4:g" % bye).split()))
+        out.append(case_dict("threaded", tr, True, 2, "c1:g m1 c2:g m2 c3:g a1 p3 g2 h2 p3 X h1".split()))
+        # the server's protocol_config carries a `before_closed` hook: connections that end by end-of-stream (abrupt departure,
+        # reset, server close) and by the protocol's goodbye all run their disconnect hook and leave nothing
+        z = "z" if tr == "tcp" else "a"
+        for kind in ("threaded", "forking", "oneshot"):
+            out.append(case_dict(kind, tr, False, 2, ("c1:g p1 a1 c2:g p2 c3:g p3 g2 c4:g %s3 p4 X X" % z).split(), opts=["bc"]))
+        out.append(case_dict("pool", tr, False, 2, ("c1:g p1 a1 c2:g p2 c3:g p3 g2 c4:g %s3 p4 a4 X" % z).split(), opts=["bc"]))
+        out.append(case_dict("threaded", tr, True, 2, "c1:g p1 c2:s c3:g X k2:g p1".split(), opts=["bc"]))
         # one-shot: a second connection waits in the listen queue and is reset when the server closes itself
         out.append(case_dict("oneshot", tr, False, 1, "c1:g c2:g p1 a1 c3:g".split()))
         out.append(case_dict("oneshot", tr, True, 1, "c1:b c2:g".split()))
@@ -117,6 +133,8 @@ def gen_case(r):
     nb = r.choice([1, 2, 3])
     nclients = r.range(1, 4)
     toks, live, nextk = [], [], 1
+    opts = ["bc"] if kind != "pool" and r.chance(1, 4) else []     # a `before_closed` hook in the server's protocol_config
+    armed, hooked = [], []         # threaded: clients whose on_disconnect will block / that left and whose thread sits in it
     slow = []                      # connected without credentials so far (the authenticator is blocked reading)
     closed = 0
     n = r.range(3, 12)
@@ -129,6 +147,15 @@ def gen_case(r):
             closed += 1
             continue
         x = r.below(100)
+        if hooked and r.chance(1, 3):
+            toks.append("h%d" % hooked.pop(0))
+            continue
+        if kind == "threaded" and live and not closed and r.chance(1, 7):
+            k = r.choice(live)
+            if k not in armed:
+                armed.append(k)
+                toks.append("m%d" % k)
+                continue
         if slow and x < 22:
             k = r.choice(slow)
             slow.remove(k)
@@ -157,11 +184,16 @@ def gen_case(r):
             k = r.choice(live)
             live.remove(k)
             toks.append("g%d" % k)
+            if k in armed and not closed:
+                hooked.append(k)
         elif live:
             k = r.choice(live)
             live.remove(k)
             toks.append(("z%d" if transport == "tcp" and r.chance(1, 3) else "a%d") % k)
-    return case_dict(kind, transport, auth, nb, toks)
+            if k in armed and not closed:
+                hooked.append(k)
+    toks += ["h%d" % k for k in hooked]
+    return case_dict(kind, transport, auth, nb, toks, opts)
 
 
 def model_lines(case):
@@ -174,7 +206,7 @@ def model_lines(case):
 
 def run_impl(case, expect=None, ceiling=servers.CEILING):
     return servers.run_case(case["server"], case["transport"], case["auth"], case["nb"], case["ops"], expect=expect,
-                            ceiling=ceiling)
+                            ceiling=ceiling, opts=case.get("opts", ()))
 
 
 def compare_case(case, ceiling=servers.CEILING):
@@ -270,7 +302,7 @@ def oracle_case(case, known=(), ceiling=servers.CEILING):
     """The property restated on ONE operation sequence, evaluated on the real server only.
     Returns None if it holds, else (description, signature)."""
     kind = case["server"]
-    sess = servers.Session(kind, case["transport"], case["auth"], case["nb"])
+    sess = servers.Session(kind, case["transport"], case["auth"], case["nb"], opts=case.get("opts", ()))
     W = lambda pred: servers.wait_for(pred, ceiling) is not None   # noqa: E731
     try:
         closed = False
